@@ -162,6 +162,11 @@ def default_stream(seq) -> bytes:
                                                      generalized=False, rdf_star=False))
 
 
+TYPED3 = [(I(f"http://t/s{i}"), I("http://t/p"), L(str(i), None, f"http://t/d{i % 2}"))
+          for i in range(4)]
+S3PLAIN = [(I(f"http://u/s{i}"), I("http://u/p"), L(str(i))) for i in range(3)]
+
+
 def step_workloads() -> dict:
     d3 = fixed_stream("triple", S3)
     d4 = fixed_stream("quad", S4)
@@ -189,6 +194,11 @@ def step_workloads() -> dict:
         # two streams with the default 4000/150/32 tables whose slots hold different strings
         "parse-generic-default-a": w_parse("generic", "flat", default_stream(S3)),
         "parse-rdflib-default-b": w_parse("rdflib", "flat", default_stream(SDB)),
+        # a stream with typed literals next to a stream whose datatype table is switched off
+        "parse-generic-typed": w_parse("generic", "flat", fixed_stream("triple", TYPED3)),
+        "parse-generic-nodt": w_parse("generic", "flat", DR.g_write(
+            S3PLAIN, "triple", DR.make_options("triple", (8, 3, 0), 1, True, generalized=False,
+                                               rdf_star=False))),
         "parse-generic-flat": w_parse("generic", "flat", d3),
         "parse-generic-flat-g": w_parse("generic", "flat", dg),
         # two GRAPHS streams with identical options but different graphs, same integration
@@ -218,11 +228,19 @@ def run_merge(factories, order):
     shared: dict = {}
     gens = [f(shared) for f in factories]
     results = [None] * len(gens)
+    dead: set = set()
     for i in order:
+        if i in dead:
+            continue
         try:
             next(gens[i])
         except StopIteration as e:
             results[i] = e.value
+        except (NameError, UnboundLocalError, ImportError):
+            raise
+        except Exception as e:  # noqa: BLE001  (a workload that fails only when interleaved)
+            results[i] = f"raised:{type(e).__name__}: {e}"
+            dead.add(i)
     return results
 
 
@@ -608,6 +626,32 @@ def _probe_thunks():
             return hashlib.sha256(repr(evs).encode()).hexdigest()
         return thunk
 
+    def grouped_inferred(api, cls):
+        def thunk():
+            # several containers, grouped logical type, the flow left to the library
+            seq = S3 if cls == "triple" else S4
+            opts = DR.make_options(cls, PRESET, 250, True, 3 if cls == "triple" else 4,
+                                   generalized=False, rdf_star=False)
+            out = io.BytesIO()
+            if api == "generic":
+                from pyjelly.integrations.generic import serialize as ser  # noqa: PLC0415
+
+                boxes = [DR.g_sink(seq[:2]), DR.g_sink(seq[2:])]
+            else:
+                from pyjelly.integrations.rdflib import serialize as ser  # noqa: PLC0415
+
+                boxes = [DR.r_graph(seq[:2]), DR.r_graph(seq[2:])]
+            ser.grouped_stream_to_file((b for b in boxes), out, options=opts)
+            from mc import jspec, jwire  # noqa: PLC0415
+
+            _, per = jspec.decode_frames(jwire.read_delimited(out.getvalue()))
+            cuts = [sum(1 for e in evs if e[0] == "st") for evs in per]
+            return hashlib.sha256(repr(cuts).encode()).hexdigest()
+        return thunk
+
+    for api in ("generic", "rdflib"):
+        for cls in ("triple", "quad"):
+            yield f"{api}-grouped-inferred-{cls}", grouped_inferred(api, cls)
     for api in ("generic", "rdflib"):
         yield f"{api}-prefixless-parse", prefixless(api)
         yield f"{api}-default-options-flat", default_many(api, "flat")
@@ -770,6 +814,24 @@ def history_actions() -> dict:
                 pass
         return act
 
+    def custom_flow_class():
+        """An application defines a frame flow class of its own (a graph per row) and uses it,
+        explicitly, for one stream."""
+        from pyjelly.serialize import flows  # noqa: PLC0415
+
+        class RowPerFrameFlow(flows.GraphsFrameFlow):
+            def frame_from_bounds(self):
+                return self.to_stream_frame() if len(self) else None
+
+        class RowPerFrameDatasets(flows.DatasetsFrameFlow):
+            def frame_from_bounds(self):
+                return self.to_stream_frame() if len(self) else None
+
+        for cls, fl in (("triple", RowPerFrameFlow), ("quad", RowPerFrameDatasets)):
+            opts = DR.make_options(cls, PRESET, 250, True, 0, generalized=False, rdf_star=False,
+                                   flow=fl())
+            DR.g_write(S3B if cls == "triple" else S4B, cls, opts, "stream_frames_gen")
+
     def subtype_stream():
         """A stream with a logical sub-type is merely constructed."""
         for cls, lt in (("triple", 13), ("quad", 114), ("quad", 14)):
@@ -778,6 +840,7 @@ def history_actions() -> dict:
 
     return {
         "subtype-stream": subtype_stream,
+        "custom-flow-class": custom_flow_class,
         "guess-mutate-generic": guess_mutate("generic"),
         "guess-mutate-rdflib": guess_mutate("rdflib"),
         "corrupt-prefixless-generic": corrupt_prefixless("generic"),
